@@ -388,6 +388,18 @@ func genReexport(r *Rng) *graphCase {
 			g.m(e).stmts = append(g.m(e).stmts, stmt{kind: kBare, target: mid0 + r.Intn(nMid)})
 		}
 	}
+	// the namespace object of a re-exporting module (or entry point) is captured and indexed with
+	// a non-constant key by some file with a lower id: its namespace-export part becomes live
+	for i := 0; i < 1+r.Intn(2); i++ {
+		if r.Chance(75) {
+			from := 1 + r.Intn(k)
+			to := mid0 + r.Intn(nMid)
+			if r.Chance(20) && from < k {
+				to = from + 1 + r.Intn(k-from) // the namespace of a later entry point
+			}
+			g.m(from).stmts = append(g.m(from).stmts, stmt{kind: kNsVal, target: to})
+		}
+	}
 	for d := 0; d < nDeep; d++ {
 		e := 1 + r.Intn(k)
 		kind := []int{kNamed, kBare, kNsProp, kNamed}[r.Intn(4)]
@@ -455,6 +467,63 @@ func genNames(r *Rng) *graphCase {
 		}
 	}
 	g.desc = fmt.Sprintf("names k=%d modules=%d pool=%v", k, nm, pool)
+	return g
+}
+
+// a captured namespace object whose properties arrive through "export *" chains that end in a
+// re-export of an import from a module living in a shared chunk:
+//   e0: import * as ns from L (ns[k] for every key)     L: export * from L2 / M
+//   M: export {x} from S (or import + export)           S: also imported by another entry
+// nothing else in L's chunk uses the binding, so the only reference is the getter of the
+// namespace-export object
+func genNsStar(r *Rng) *graphCase {
+	g := &graphCase{}
+	k := 2 + r.Intn(2)
+	stars := 1 + r.Intn(2) // L (-> L2) -> M
+	for i := 0; i < k; i++ {
+		g.mods = append(g.mods, &mod{id: i + 1, name: fmt.Sprintf("e%d", i), user: true, varKW: "let"})
+		g.user = append(g.user, i+1)
+	}
+	id := k + 1
+	var chain []int
+	for i := 0; i < stars; i++ {
+		g.mods = append(g.mods, &mod{id: id, name: fmt.Sprintf("lib%d", i), varKW: "let"})
+		chain = append(chain, id)
+		id++
+	}
+	mID := id
+	g.mods = append(g.mods, &mod{id: mID, name: "mid0", varKW: "let"})
+	id++
+	sID := id
+	g.mods = append(g.mods, &mod{id: sID, name: "deep0", varKW: []string{"let", "var"}[r.Intn(2)]})
+	for i, c := range chain {
+		next := mID
+		if i+1 < len(chain) {
+			next = chain[i+1]
+		}
+		g.m(c).stmts = append(g.m(c).stmts, stmt{kind: kStar, target: next})
+	}
+	g.m(mID).stmts = append(g.m(mID).stmts, stmt{kind: kReexp, target: sID, viaImp: r.Bool(), pref: true})
+	// the capturing entry point (sometimes through a private module)
+	g.m(1).stmts = append(g.m(1).stmts, stmt{kind: kNsVal, target: chain[0]})
+	// the source is shared: another entry point reaches it
+	other := 2 + r.Intn(k-1)
+	g.m(other).stmts = append(g.m(other).stmts, stmt{kind: []int{kNamed, kBare, kNamed}[r.Intn(3)], target: sID})
+	if r.Chance(30) {
+		g.m(other).stmts = append(g.m(other).stmts, stmt{kind: kNsVal, target: chain[len(chain)-1]})
+	}
+	if r.Chance(25) {
+		g.m(1).stmts = append(g.m(1).stmts, stmt{kind: kBare, target: mID})
+	}
+	for _, m := range g.mods {
+		for i := len(m.stmts) - 1; i > 0; i-- {
+			j := r.Intn(i + 1)
+			m.stmts[i], m.stmts[j] = m.stmts[j], m.stmts[i]
+		}
+	}
+	g.prune()
+	g.fill(r)
+	g.desc = fmt.Sprintf("ns-star k=%d stars=%d", k, stars)
 	return g
 }
 
@@ -751,7 +820,9 @@ func (g *graphCase) source(m *mod) string {
 				}
 			}
 		case kNsVal:
-			w("L.push(\"%s:keys:%s:\" + Object.keys(%s).sort().join(\",\"));\n", N, s.locals[0], s.locals[0])
+			// enumerate the namespace object and read every property through a non-constant key, so
+			// that every lazy getter of the namespace-export object is forced
+			w("L.push(\"%s:keys:%s:\" + Object.keys(%s).sort().map(k => k + \"=\" + typeof %s[k]).join(\",\"));\n", N, s.locals[0], s.locals[0], s.locals[0])
 			views = append(views, s.locals[0]+".v")
 		case kNsProp:
 			for _, nm := range s.names {
@@ -1823,6 +1894,14 @@ func runC10(seed uint64, n int, tier string, outDir string) []*Stats {
 		g.user = []int{1, 2}
 		g.fill(r)
 		handle(g, buildCfg{}, true, true)
+	}
+	// (1f) captured namespace objects fed by export-star chains ending in a re-exported import
+	for i := 0; i < n/4+6; i++ {
+		cfg := buildCfg{}
+		if i%3 == 2 {
+			cfg = randCfg(r)
+		}
+		handle(genNsStar(r), cfg, true, true)
 	}
 	// (1d) colliding top-level names in one shared chunk (identifiers not minified)
 	for i := 0; i < n/3+8; i++ {
